@@ -171,7 +171,11 @@ func aolOps(acc aolAccounts, v aolVariant) []explore.Op {
 	pairs := []ot{{A, "a"}, {A, "ab"}, {B, "a"}}
 	for _, o := range []*world.Account{A, B} {
 		for _, t := range []string{"a", "ab"} {
-			ops = append(ops, txOp(fmt.Sprintf("CreateTopic(%s,%s)", o.Name, t), s(o), aoltypes.NewMsgCreateTopic(t, "desc-"+o.Name+t, o.Bech)))
+			desc := "desc-" + o.Name + t
+			if t == "ab" || o == B {
+				desc = "" // a topic without description, writers and records is stored as a zero-length value
+			}
+			ops = append(ops, txOp(fmt.Sprintf("CreateTopic(%s,%s)", o.Name, t), s(o), aoltypes.NewMsgCreateTopic(t, desc, o.Bech)))
 		}
 	}
 	for _, p := range pairs {
